@@ -379,7 +379,13 @@ fn scenario(max_threads: usize, max_ops: usize) {
     for (plan, res) in plans.iter().zip(results.iter()) {
         for (op, r) in plan.iter().zip(res.iter()) {
             let again = exec_op(op);
-            if again != *r {
+            // the contract leaves the sign of the root open: an implementation may return either root, so only
+            // the flag and the root up to sign have to agree; everything else is canonical and must be identical
+            let same = match (&again, r) {
+                (Res::Sqrt(f1, y1), Res::Sqrt(f2, y2)) => f1 == f2 && (y1 == y2 || *y1 == fq().neg(y2)),
+                (a, b) => a == b,
+            };
+            if !same {
                 panic!("INVARIANT concurrent_differs_from_sequential: {:?}: {:?} vs {:?}", op, r, again);
             }
             OPS.fetch_add(1, Ordering::Relaxed);
